@@ -332,7 +332,7 @@ PROPS["C20"] = dict(
     jobs=[
         Job("sflight", engine="sflight", workers=(8, 16), cases=(3000, 300000), time_s=(40, 800), **FULL),
     ],
-    gates=dict(evaluations=(20000, 2000000), distinct=(3000, 20000),
+    gates=dict(evaluations=(20000, 2000000), distinct=(3000, 6000),
                counters={"joiners": (100000, 10000000), "flights": (50000, 5000000), "histories_with_panicking_task": (5000, 500000), "histories_current": (2000, 200000), "histories_threadpool": (2000, 200000),
                          "hook_points_crossed": (300000, 30000000)}),
 )
